@@ -3,6 +3,7 @@ package specgen
 import (
 	"fmt"
 	"sort"
+	"strconv"
 	"strings"
 	"time"
 
@@ -172,16 +173,37 @@ type Prim struct {
 }
 
 func (p Prim) Schema() *Schema {
-	return &Schema{Type: p.Type, Format: p.Format, TimeFormat: p.Layout()}
+	s := &Schema{Type: p.Type, Format: p.Format, TimeFormat: p.Layout()}
+	// the layout may be written as a Go string literal instead of a constant of package time
+	if strings.HasSuffix(p.Name, "~lit") {
+		s.TimeFormat = strconv.Quote(GoLayout(p.Layout()))
+	}
+	return s
 }
 
-// Layout is the x-goag-go-time-format of a date-time primitive ("" = goag's default):
-// it travels in the name after an '@' (datetime@time.RFC1123Z).
+// Layout is the x-goag-go-time-format of a date-time primitive ("" = goag's default), by
+// its canonical name: it travels in the name after an '@' (datetime@time.RFC1123Z; a
+// trailing ~lit says the document spells it as a string literal).
 func (p Prim) Layout() string {
 	if i := strings.Index(p.Name, "@"); i >= 0 {
-		return p.Name[i+1:]
+		return strings.TrimSuffix(p.Name[i+1:], "~lit")
 	}
 	return ""
+}
+
+// CanonLayout maps a layout written as a Go string literal to the constant of package
+// time with the same text (the name every oracle knows it by).
+func CanonLayout(expr string) string {
+	if strings.HasPrefix(expr, "\"") {
+		if text, err := strconv.Unquote(expr); err == nil {
+			for _, name := range TimeLayouts {
+				if GoLayout(name) == text {
+					return name
+				}
+			}
+		}
+	}
+	return expr
 }
 
 // TimeLayouts are the layouts the generators draw for date-time parameters and
@@ -189,6 +211,10 @@ func (p Prim) Layout() string {
 var TimeLayouts = []string{"time.RFC1123Z", "time.DateOnly", "time.DateTime", "time.RFC3339"}
 
 func GoLayout(expr string) string {
+	if strings.HasPrefix(expr, "\"") {
+		text, _ := strconv.Unquote(expr)
+		return text
+	}
 	switch expr {
 	case "time.RFC1123Z":
 		return time.RFC1123Z
@@ -222,7 +248,7 @@ func PrimOf(s *Schema) (Prim, bool) {
 	for _, p := range Prims {
 		if p.Type == s.Type && p.Format == s.Format {
 			if p.Format == "date-time" && s.TimeFormat != "" {
-				p.Name = "datetime@" + s.TimeFormat
+				p.Name = "datetime@" + CanonLayout(s.TimeFormat)
 			}
 			return p, true
 		}
@@ -244,6 +270,10 @@ func (c *Ctx) maybeLayout(p Prim, label string) Prim {
 	if p.Format == "date-time" && p.Layout() == "" && c.Allow("param:time-layout") && rapid.Bool().Draw(c.T, label+"_layout") {
 		p.Name = "datetime@" + rapid.SampledFrom(TimeLayouts).Draw(c.T, label+"_layout_expr")
 		c.Tag("param:time-layout")
+		if rapid.IntRange(0, 3).Draw(c.T, label+"_layout_literal") == 0 {
+			p.Name += "~lit"
+			c.Tag("param:time-layout-as-literal")
+		}
 	}
 	return p
 }
